@@ -27,11 +27,13 @@ class DecidedRaise(Undecided):
     """evaluating the term at this (valid) point raises: rules that care report it as a violation; for the others it is undecided"""
 
 
-def deep_leaves(cx, mod, cls, fn, limit=64):
-    """leaves of fn with every resolvable repository helper inlined (not only those unknown to the rules) and ites split"""
-    key = ('deep', id(fn), getattr(cls, 'name', None))
+def deep_leaves(cx, mod, cls, fn, limit=64, inline_super=False):
+    """leaves of fn with every resolvable repository helper inlined (not only those unknown to the rules) and ites split;
+    inline_super: super().m(...) calls are followed too (rules that track the state of an object through its methods)"""
+    key = ('deep', id(fn), getattr(cls, 'name', None), inline_super)
     if key not in cx._leaves:
         sx = Sym(cx.model, assume={'_WITH_PYDUB': False, '_WITH_TQDM': False}, known=frozenset())
+        sx.inline_super = inline_super
         try:
             lv = sx.run(mod, fn, cls=cls)
         except TooManyPaths as exc:
